@@ -91,7 +91,7 @@ func NewCtx(id, tier string) *Ctx {
 		var all []KnownFinding
 		if err := json.Unmarshal(b, &all); err != nil {
 			fmt.Fprintf(os.Stderr, "known_findings.json unreadable: %v\n", err)
-			os.Exit(2)
+			exit(2)
 		}
 		for _, k := range all {
 			if k.Property == id && k.Kind == "known" {
@@ -254,7 +254,7 @@ func (c *Ctx) Finish() {
 	b, _ := json.MarshalIndent(ev, "", " ")
 	if err := os.WriteFile(filepath.Join(OutRoot(), "evidence", c.ID+".json"), b, 0o644); err != nil {
 		fmt.Fprintf(os.Stderr, "cannot write evidence: %v\n", err)
-		os.Exit(2)
+		exit(2)
 	}
 	keys := make([]string, 0, len(c.counters))
 	for k := range c.counters {
@@ -266,17 +266,17 @@ func (c *Ctx) Finish() {
 		fmt.Printf("  %-40s %d\n", k, c.counters[k])
 	}
 	if viol > 0 {
-		os.Exit(1)
+		exit(1)
 	}
 	if distinct < c.MinDistinct {
 		fmt.Printf("INCONCLUSIVE property=%s only %d distinct non-trivial cases observed (minimum %d)\n", c.ID, distinct, c.MinDistinct)
-		os.Exit(2)
+		exit(2)
 	}
 	if inc > 0 {
-		os.Exit(2)
+		exit(2)
 	}
 	fmt.Printf("HELD property=%s on everything observed\n", c.ID)
-	os.Exit(0)
+	exit(0)
 }
 
 // Mark adds key to a named set of distinct things observed (reported as a count under coverage.distinct_sets).
@@ -396,14 +396,14 @@ func (c *Ctx) FinishShard() {
 	b, err := json.Marshal(d)
 	if err != nil {
 		fmt.Fprintf(os.Stderr, "shard dump: %v\n", err)
-		os.Exit(3)
+		exit(3)
 	}
 	_ = os.MkdirAll(filepath.Dir(shardFile(c.ID, c.shard)), 0o755)
 	if err := os.WriteFile(shardFile(c.ID, c.shard), b, 0o644); err != nil {
 		fmt.Fprintf(os.Stderr, "shard dump: %v\n", err)
-		os.Exit(3)
+		exit(3)
 	}
-	os.Exit(0)
+	exit(0)
 }
 
 // RunShards re-executes this binary once per shard, waits, and merges what the shards observed.
@@ -561,10 +561,10 @@ func (c *Ctx) Begin(caseID string, inputs map[string]string) {
 				if expired {
 					if used <= 10*time.Second {
 						fmt.Fprintf(os.Stderr, "WATCHDOG: case did not return within %s and the process used %s of CPU meanwhile: blocked\n", CaseWatchdog, used)
-						os.Exit(4)
+						exit(4)
 					}
 					fmt.Fprintf(os.Stderr, "WATCHDOG: case still computing after %d windows of %s\n", windows+1, CaseWatchdog)
-					os.Exit(5)
+					exit(5)
 				}
 			}
 		}()
@@ -575,6 +575,34 @@ var (
 	watchdogCPU     time.Duration
 	watchdogWindows int
 )
+
+// TempDir creates a scratch directory that is removed when the process leaves through any exit of the harness
+// (Finish, FinishShard, the watchdog): `defer os.RemoveAll` does not run on os.Exit.
+func TempDir(prefix string) string {
+	d, err := os.MkdirTemp("", prefix)
+	if err != nil {
+		return os.TempDir()
+	}
+	tempMu.Lock()
+	tempDirs = append(tempDirs, d)
+	tempMu.Unlock()
+	return d
+}
+
+var (
+	tempMu   sync.Mutex
+	tempDirs []string
+)
+
+// exit removes the scratch directories and ends the process.
+func exit(code int) {
+	tempMu.Lock()
+	for _, d := range tempDirs {
+		_ = os.RemoveAll(d)
+	}
+	tempMu.Unlock()
+	os.Exit(code)
+}
 
 // processCPU: user+system CPU time consumed so far by this process and by the helper processes it has waited for.
 func processCPU() time.Duration {
